@@ -51,6 +51,11 @@ CLAIMED = {
             "Batches of 24 generated 'observable everything' programs (print, repr/str of all value kinds incl. functions/types/bound methods, dir, hash, json, dict/set/struct iteration, failing tails with suggestions and call stacks, plus type-checker errors/interface/approximations and lints of the same file) run in 3 (quick) / 6 (thorough) child processes whose entropy is controlled: getrandom/getentropy stream (std RandomState keys), ASLR disabled and replaced by seeded mmap/malloc/env-padding noise, evaluation on main / 1st / n-th spawned thread, seeded program order and warm-up evaluations. All configurations must produce byte-identical transcripts per program; probes confirm the configurations really differed (std HashSet order, stack address).",
             "Covers the entropy sources listed; a source not behind one of these seams (e.g. a clock) would not be varied. The harness renders API results in the order returned.",
             "DESIGN.md §6 C14"),
+    "C18": ("exploration",
+            "deterministic simulation of a debugger client in lock-step with the evaluation thread (scripted requests, breakpoint changes, detach and late-request faults) plus all profiler / statement-hook configurations, compared with the uninstrumented transcript",
+            "Generated programs with marker statements are run uninstrumented (reference), under each of the 13 ProfileModes followed by gen_profile, under a counting statement hook (exactly one continued=false call per executed marker statement) and under the DAP adapter driven by a simulated client in lock-step with the evaluation thread: breakpoints on seeded subsets of marker lines incl. conditional / failing conditions and breakpoint-set changes at stops, requests at every stop (top_frame, stack_trace, scopes, variables, inspect_variable, evaluate incl. failing expressions), step Into/Over/Out, detach at a seeded stop, request after the evaluation ended (must return, not hang). Transcript, result and error text must equal the reference; the sequence of stops must equal the executed markers carrying a breakpoint; variables shown at a stop must equal what the marker then emits; under step-Into every executed marker is stopped at exactly once.",
+            "Over/Out are only checked for non-interference. One recorded defect (module-level statements announced twice to hooks/debugger) is modelled and reported as KNOWN-FINDING; any other deviation is a violation.",
+            "DESIGN.md §6 C18"),
 }
 
 NOT_APPLICABLE = {
@@ -67,7 +72,6 @@ NOT_APPLICABLE = {
 
 # Properties planned (DESIGN.md) but whose check is not built yet: listed as not claimed *yet*.
 PENDING = {
-    "C18": "claimed in DESIGN.md but its check is not built yet in this commit; not claimed until it is",
     "C19": "claimed in DESIGN.md but its check is not built yet in this commit; not claimed until it is",
 }
 
